@@ -295,7 +295,7 @@ func runConcCore(t *testing.T, p *Plan, ns string) *Outcome {
 			tk, stuck := PickFair(parked, dice.Next(len(parked)), 300)
 			s.noteChoice(len(parked), tk.Site)
 			if stuck {
-				panicSig = "C05/livelock/" + tk.Site
+				panicSig = ns + "/livelock/" + tk.Site
 				o.Detail = fmt.Sprintf("task t%d has spun %d times at %s and nothing else can change the flag", tk.ID, tk.Spins, tk.Site)
 				return
 			}
@@ -336,7 +336,7 @@ func runConcCore(t *testing.T, p *Plan, ns string) *Outcome {
 		}
 		for _, c := range cs {
 			if c.SrvPanic != "" {
-				panicSig = "C05/panic/" + topRepoFrame(c.SrvPanic)
+				panicSig = ns + "/panic/" + topRepoFrame(c.SrvPanic)
 				o.Detail = c.SrvPanic
 			}
 		}
@@ -391,6 +391,11 @@ func runConcCore(t *testing.T, p *Plan, ns string) *Outcome {
 				}
 			}
 			return false
+		}
+		if ns == "C12" {
+			// C12 is about liveness and framing (every command answered, process up): checked above
+			matched = true
+			return
 		}
 		if p.Profile == "conn" && hasCmd(p.Ops, "SWAPDB") && Avoiding(p, ns+"/conn-nonserializable/SWAPDB") {
 			// open finding: SWAPDB is not atomic. The plan was still run for its liveness content (every command
